@@ -356,9 +356,6 @@ def main():
         return "|".join(g)
 
     lines = [line_of(cs) for cs in cases]
-    if os.environ.get("VERIF_C12_DUMP"):
-        open(os.environ["VERIF_C12_DUMP"], "w").write("\n".join(lines) + "\n")
-        raise SystemExit("dumped %d lines" % len(lines))
     tick("cases generated")
     out = par(run_i, lines)
     tick("implementation run")
